@@ -509,6 +509,8 @@ bool Interp::doExtra(const Step& s, bool& handled)
         bool h = false;
         bool ok = doReachFamily(*this, s, h);
         if (h) return ok;
+        ok = doLifeFamily(*this, s, h);
+        if (h) return ok;
     }
     handled = false;
     return true;
